@@ -25,21 +25,21 @@ theorem seps_numCont (seps : List Byte) (hs : Seps seps) (d : Byte) (rest : List
 
 /-- first character of a token of the `real` or of the `integer` grammar -/
 theorem number_head (tok : List Byte) (htok : isReal tok = true ∨ isInteger tok = true) :
-    ∃ c u, tok = c :: u ∧ isSpace c = false ∧ c ≠ 36 ∧ c ≠ 44 ∧ c ≠ 41 ∧ c ≠ 47 := by
+    ∃ c u, tok = c :: u ∧ isSpace c = false ∧ c ≠ 36 ∧ c ≠ 44 ∧ c ≠ 41 ∧ c ≠ 47 ∧ c ≠ 92 := by
   have key : ∀ (sg ds : List Byte), IsSign sg → ds ≠ [] → ds.all isDigit = true → ∀ tail,
-      ∃ c u, sg ++ (ds ++ tail) = c :: u ∧ isSpace c = false ∧ c ≠ 36 ∧ c ≠ 44 ∧ c ≠ 41 ∧ c ≠ 47 := by
+      ∃ c u, sg ++ (ds ++ tail) = c :: u ∧ isSpace c = false ∧ c ≠ 36 ∧ c ≠ 44 ∧ c ≠ 41 ∧ c ≠ 47 ∧ c ≠ 92 := by
     intro sg ds hsg hds1 hds tail
     obtain ⟨i0, iu, rfl⟩ : ∃ i0 iu, ds = i0 :: iu := by
       cases ds with
       | nil => exact absurd rfl hds1
       | cons i0 iu => exact ⟨i0, iu, rfl⟩
     have hi0 : isDigit i0 = true := by simp at hds; exact hds.1
-    have hi0' : isSpace i0 = false ∧ i0 ≠ 36 ∧ i0 ≠ 44 ∧ i0 ≠ 41 ∧ i0 ≠ 47 := by
-      refine ⟨digit_not_space hi0, ?_, ?_, ?_, ?_⟩ <;> (simp [isDigit] at hi0; bomega)
+    have hi0' : isSpace i0 = false ∧ i0 ≠ 36 ∧ i0 ≠ 44 ∧ i0 ≠ 41 ∧ i0 ≠ 47 ∧ i0 ≠ 92 := by
+      refine ⟨digit_not_space hi0, ?_, ?_, ?_, ?_, ?_⟩ <;> (simp [isDigit] at hi0; bomega)
     rcases hsg with rfl | rfl | rfl
-    · exact ⟨i0, iu ++ tail, by simp, hi0'.1, hi0'.2.1, hi0'.2.2.1, hi0'.2.2.2.1, hi0'.2.2.2.2⟩
-    · exact ⟨43, i0 :: (iu ++ tail), by simp, by decide, by decide, by decide, by decide, by decide⟩
-    · exact ⟨45, i0 :: (iu ++ tail), by simp, by decide, by decide, by decide, by decide, by decide⟩
+    · exact ⟨i0, iu ++ tail, by simp, hi0'.1, hi0'.2.1, hi0'.2.2.1, hi0'.2.2.2.1, hi0'.2.2.2.2.1, hi0'.2.2.2.2.2⟩
+    · exact ⟨43, i0 :: (iu ++ tail), by simp, by decide, by decide, by decide, by decide, by decide, by decide⟩
+    · exact ⟨45, i0 :: (iu ++ tail), by simp, by decide, by decide, by decide, by decide, by decide, by decide⟩
   rcases htok with hr | hi
   · obtain ⟨sg, ip, fp, ex, rfl, hsg, hip1, hip, _, _⟩ := isReal_shape tok hr
     exact key sg ip hsg hip1 hip _
@@ -62,7 +62,7 @@ theorem readNumber_tok (ops : FloatOps F) (lex : LexCfg) (hcfg : lex.criSkipsCom
     · obtain ⟨sg, ds, rfl, hsg, hds1, hds⟩ := isInteger_form tok hi
       have := numSplit_intText sg ds _ hsg hds1 hds hcont
       simpa using this
-  obtain ⟨c, u, hcu, hcs, _, _, _, _⟩ := number_head tok htok
+  obtain ⟨c, u, hcu, hcs, _, _, _, _, _⟩ := number_head tok htok
   obtain ⟨hwf, _, hscan⟩ := numSplit_spec l (tok ++ (seps ++ d :: rest))
   rw [hf1] at hwf hscan
   simp only [hf2] at hscan
@@ -92,7 +92,7 @@ theorem attr_number (env : Env F) (strict : Bool) (a : AttrD) (hty : a.ty = .one
     attrSTEPread env strict a (G l (tok ++ (seps ++ d :: rest)) sk) =
       .ok (.null, .one (.atom (.real v)), G (seps.reverse ++ (tok.reverse ++ l)) (d :: rest) sk) := by
   have hr := readNumber_tok env.ops env.lex hcfg tok dec v htok hden hv l sk seps hs d rest hd
-  obtain ⟨c, u, hcu, hcs, hc36, hc44, hc41, _⟩ := number_head tok htok
+  obtain ⟨c, u, hcu, hcs, hc36, hc44, hc41, _, _⟩ := number_head tok htok
   unfold attrSTEPread
   rw [hcu] at hr ⊢
   simp only [List.cons_append] at hr ⊢
